@@ -144,8 +144,10 @@ class _StatePointDict(JSONAttrDict):
                 raise
 
         # Update each job instance.
+        new_statepoint = self._to_base()
         for job in self._jobs:
             job._id = new_id
+            job._cached_statepoint = new_statepoint
             job._initialize_lazy_properties()
 
         # Remove the temporary state point file if it was created. Have to do it
